@@ -231,6 +231,13 @@ SPECIALS = [
     ("quote-run", 'a SELECT "' + "\\" * 5001),
     ("regex-bait", "a SEARCH BEFORE " + "1-" * 3000),
     ("header-fields-many", "a FETCH 1 BODY[HEADER.FIELDS (" + " ".join("h%d" % i for i in range(3000)) + ")]"),
+    # thousands of digits wherever a number may stand (int() refuses them: must surface as BadCommand)
+    ("digits-seqset", "a FETCH " + "1" * 5000 + " FLAGS"),
+    ("digits-range", "a UID FETCH 1:" + "9" * 4400 + " FLAGS"),
+    ("digits-search", "a SEARCH LARGER " + "7" * 6000),
+    ("digits-literal", "a APPEND x {" + "1" * 4400 + "}\r\n"),
+    ("digits-partial", "a FETCH 1 BODY[]<" + "1" * 4500 + ".5>"),
+    ("digits-status", "a SEARCH UID " + "3" * 4301 + ":*"),
     ("empty", ""),
     ("only-tag", "a"),
     ("only-tag-sp", "a "),
